@@ -216,3 +216,15 @@ func (s *SRPServer) Verify(A, m1 []byte) ([]byte, bool) {
 	}
 	return h512(A, m1, s.K), true
 }
+
+// ProofM1 computes the SRP client proof H(H(N) xor H(g) | H(I) | s | A | B | K) for arbitrary inputs
+// (the attacker toolkit uses it with K = "" or other keys a peer without the setup code can know).
+func ProofM1(salt, A, B, K []byte) []byte {
+	hn := h512(SRPPrime().Bytes())
+	hg := h512(srpG.Bytes())
+	x0 := make([]byte, len(hn))
+	for i := range hn {
+		x0[i] = hn[i] ^ hg[i]
+	}
+	return h512(x0, h512([]byte(SRPUser)), salt, A, B, K)
+}
